@@ -12,8 +12,8 @@ RULE = ("hist cases: histories of add-plugin / remove-rule / has_rule / Debug / 
         "aliases/constraints, remove by own mark or alias, contains, iter, Debug). Oracle: final parse result equal in both histories; "
         "has_rule answers equal; Debug never panics; a removed rule is absent from iter. Non-trivial = a configuration call follows a parse; "
         "distinct = distinct histories.")
-ADD = list("nebmliatcfqhurHLpsxXS") + list("12345678") 
-REM = list("nebmMsliEatxcfqhurHLpXSJ") + list("12345")
+ADD = list("nebmliatcfqhurHLpsxXS") + list("12345678") + ["g", "G"] 
+REM = list("nebmMsliEatxcfqhurHLpXSJ") + list("123458") + ["Z", "Z"]
 DOCS = ["xx a xx %% b", "*a* _b_ ~~c~~ `d`", "- a\n@@@\nb", "> q\n@@@", "# h\n\n    code\n\n```\nf\n```", "[a](u) ![b](v) <http://x.y> &amp; \\*", "a\nb  \nc", "<b>x</b>\n\n<div>\ny\n</div>",
         "1. x\n2. y\n\n---\n\nt\n===", "[r]: /u\n\n[r] xx", "t <b>x</b> u <http://a.b> v &amp; w", "p *q <i>r</i>* s ![t](u) <x@y.z> end"]
 
